@@ -141,3 +141,11 @@ Proof. intro H. unfold set_at. apply Nat.ltb_lt in H. rewrite H. reflexivity. Qe
 Lemma remove_at_some {A} i (l : list A) :
   i < length l -> remove_at i l = Some (firstn i l ++ skipn (S i) l).
 Proof. intro H. unfold remove_at. apply Nat.ltb_lt in H. rewrite H. reflexivity. Qed.
+
+(* the latest parameter announced in an event sequence *)
+Fixpoint last_param {A} (evs : list (@event A)) (p0 : option nat) : option nat :=
+  match evs with
+  | [] => p0
+  | EDiff _ :: rest => last_param rest p0
+  | EParam n :: rest => last_param rest (Some n)
+  end.
